@@ -246,6 +246,10 @@ func (e *Exec) execUnOp(x *ssa.UnOp) Val {
 		if t, ok := v.(*Term); ok {
 			return e.vc.Define(x.Name(), t)
 		}
+		if lp, ok := v.(*Ptr); ok && e.fieldNonNil(p) {
+			lp.NonNil = true
+			e.vc.Assume(e.g, IntLt(IntLit(0), lp.Ref))
+		}
 		return v
 	case token.NOT:
 		return Not(e.term(x.X))
@@ -795,16 +799,44 @@ func (e *Exec) execMakeSlice(x *ssa.MakeSlice) Val {
 	ln := e.vc.Define("len", e.idx64(x.Len))
 	cp := e.vc.Define("cap", e.idx64(x.Cap))
 	el := types.Unalias(x.Type()).Underlying().(*types.Slice).Elem()
-	e.check("makesize", And(SGe(ln, bv64zero), SLe(ln, cp), SLe(cp, maxLen)), "make: length out of range")
+	e.check("makesize", And(SGe(ln, bv64zero), SLe(ln, cp)), "make: negative length or len > cap")
 	e.allocBound(cp, "make")
+	// beyond 2^48 elements make panics or the process is out of memory: covered by the allocation bound
+	// obligation where enabled; afterwards the address-space assumption applies
+	e.vc.Assume(e.g, SLe(cp, maxLen))
 	r := e.allocRef("mk")
 	n, s := elemHeap(el)
 	e.heapSet(n, Store(e.heapGet(n, s), r, ConstArr(ArraySort(BV(64), sortOf(el)), zeroOf(el))))
 	return MkSlice(r, bv64zero, ln, cp)
 }
 
-// allocBound: resource obligation hook (allocation proportional to input); enabled per property.
-func (e *Exec) allocBound(n *Term, what string) {}
+// allocBound: resource obligation (allocation proportional to the size of the input), enabled per property:
+// n <= 64*(sum of the lengths of byte/string inputs of the unit function) + 4096.
+func (e *Exec) allocBound(n *Term, what string) {
+	if !e.allocOn || e.inSize == nil {
+		return
+	}
+	if n.IsLit() {
+		if n.Lit.IsInt64() && n.Lit.Int64() <= 1<<20 {
+			return
+		}
+	}
+	// lengths of every byte string / slice the function has seen so far count as input size
+	total := e.inSize
+	seen := e.root.seenLens
+	if len(seen) > 48 {
+		seen = seen[len(seen)-48:]
+	}
+	dedup := map[string]bool{}
+	for _, l := range seen {
+		if !dedup[l.String()] {
+			dedup[l.String()] = true
+			total = BVAdd(total, l)
+		}
+	}
+	bound := BVAdd(BVMul(BVLitI(64, 64), total), BVLitI(4096, 64))
+	e.check("alloc", And(SGe(n, bv64zero), SLe(n, bound)), what+": allocation not bounded by 64*|input|+4096")
+}
 
 func (e *Exec) execLookup(x *ssa.Lookup) Val {
 	if isString(x.X.Type()) {
